@@ -1,0 +1,78 @@
+//go:build verif
+
+// Contracts for package httpd, read by /verif/engine (govc). Comments only.
+package httpd
+
+// ---------------------------------------------------------------- handler.go (C20)
+
+// The method -> privilege table of the property; unknown methods are an error.
+//@ func requiredPrivilegeForHTTPMethod
+//@   props C20
+//@   modifies nothing
+//@   ensures (strings.ToUpper(method) == "HEAD" || strings.ToUpper(method) == "OPTIONS") ==> result0 == auth.NoPrivileges && result1 == nil
+//@   ensures strings.ToUpper(method) == "GET" ==> result0 == auth.ReadPrivilege && result1 == nil
+//@   ensures (strings.ToUpper(method) == "POST" || strings.ToUpper(method) == "PATCH" || strings.ToUpper(method) == "PUT") ==> result0 == auth.WritePrivilege && result1 == nil
+//@   ensures strings.ToUpper(method) == "DELETE" ==> result0 == auth.DeletePrivilege && result1 == nil
+//@   ensures (strings.ToUpper(method) != "HEAD" && strings.ToUpper(method) != "OPTIONS" && strings.ToUpper(method) != "GET" && strings.ToUpper(method) != "POST"
+//@       && strings.ToUpper(method) != "PATCH" && strings.ToUpper(method) != "PUT" && strings.ToUpper(method) != "DELETE") ==> result1 != nil
+
+//@ spec userMasksSmall(u auth.User) bool = forall k string :: has(u.privileges, k) ==> 0 <= u.privileges[k] && u.privileges[k] < 32
+
+// A request passes only if the user is authorised, by the rule of package auth, for the
+// privilege of its method on the API resource of its path.
+//@ func authorizeRequest
+//@   props C20
+//@   requires r != nil && r.URL != nil && userMasksSmall(user)
+//@   modifies nothing
+//@   ensures result == nil ==> exists p auth.Privilege :: 0 <= p && p < 32
+//@       && auth.authzOK(user, path.Join("/api", strings.TrimPrefix(r.URL.Path, BasePath)), p)
+//@       && (strings.ToUpper(r.Method) == "GET" ==> p == auth.ReadPrivilege)
+//@       && (strings.ToUpper(r.Method) == "DELETE" ==> p == auth.DeletePrivilege)
+//@       && ((strings.ToUpper(r.Method) == "POST" || strings.ToUpper(r.Method) == "PATCH" || strings.ToUpper(r.Method) == "PUT") ==> p == auth.WritePrivilege)
+
+// parseCredentials: without an error the method is one of the three the dispatcher handles.
+//@ func (missingPrivilege).MissingPrivlege
+//@   trusted
+//@   pure
+
+//@ func parseCredentials
+//@   modifies nothing
+//@   props C20
+//@   requires r != nil && r.URL != nil
+//@   ensures result1 == nil ==> (result0.Method == UserAuthentication || result0.Method == BearerAuthentication || result0.Method == SubscriptionAuthentication)
+
+// The inner handler runs only after authorisation succeeded.
+//@ func authorize$1
+//@   props C20
+//@   requires r != nil && r.URL != nil && userMasksSmall(user)
+//@   guardcall inner#1: callresult(authorizeRequest) == nil
+//@ func authorizeForward$1
+//@   props C20
+//@   requires r != nil && r.URL != nil && userMasksSmall(user)
+//@   guardcall inner#1: callresult(authorizeRequest) == nil
+
+// The authentication service: assumed contracts (no effect on modelled memory).
+//@ func =(github.com/influxdata/kapacitor/auth.Interface).Authenticate
+//@   trusted
+//@   modifies nothing
+//@ func =(github.com/influxdata/kapacitor/auth.Interface).User
+//@   trusted
+//@   modifies nothing
+//@ func =(github.com/influxdata/kapacitor/auth.Interface).SubscriptionUser
+//@   trusted
+//@   modifies nothing
+
+// "With authentication enabled, a request is served only with valid credentials": the inner
+// handler is reached either because authentication is off, or through one of the three
+// credential kinds whose lookup in the authentication service returned no error. The
+// `default:` arm of the switch has no return; it is dead only because of parseCredentials'
+// postcondition.
+//@ func authenticate$1
+//@   props C20
+//@   requires r != nil && r.URL != nil && h != nil
+//@   guardcall inner#1: !requireAuthentication
+//@   guardcall inner#2: requireAuthentication
+//@       && (creds.Method == UserAuthentication || creds.Method == BearerAuthentication || creds.Method == SubscriptionAuthentication)
+//@       && (creds.Method == UserAuthentication ==> callresult(Authenticate, 1) == nil && creds.Username != "")
+//@       && (creds.Method == BearerAuthentication ==> callresult(User, 1) == nil)
+//@       && (creds.Method == SubscriptionAuthentication ==> callresult(SubscriptionUser, 1) == nil)
